@@ -296,6 +296,11 @@ func (t *Target) createProxyHandler() http.Handler {
 		Transport: &http.Transport{
 			MaxIdleConnsPerHost:   MaxIdleConnsPerHost,
 			ResponseHeaderTimeout: t.options.ResponseTimeout,
+
+			// Content negotiation is between the client and the target: do
+			// not ask for gzip on the client's behalf, and do not decompress
+			// what the target sends.
+			DisableCompression: true,
 		},
 	}
 }
